@@ -15,21 +15,23 @@ pub broadcast group group_alloc { axiom_elem_bound_any, axiom_elem_bound_u8, axi
 
 /// the allowance: a fixed 16 MiB, or in proportion (<= 64x) to the bytes actually received
 pub open spec fn alloc_ok(bytes: int, received: int) -> bool { bytes <= ALLOC_ONE_MAX || bytes <= 64 * received }
+/// element counts up to 65536 are always within the allowance (65536 * 256 B = 16 MiB, see axiom_elem_bound_any)
+pub const ALLOC_COUNT_MAX: usize = 65536;
 
 #[verifier::external_body]
 pub fn verif_vec_with_capacity<T>(n: usize, Ghost(received): Ghost<int>) -> (r: Vec<T>)
-    requires alloc_ok(n * elem_bound::<T>(), received)
+    requires n <= ALLOC_COUNT_MAX || alloc_ok(n * elem_bound::<T>(), received)
     ensures r@.len() == 0
 { Vec::with_capacity(n) }
 
 #[verifier::external_body]
 pub fn verif_vec_from_elem<T: Clone>(x: T, n: usize, Ghost(received): Ghost<int>) -> (r: Vec<T>)
-    requires alloc_ok(n * elem_bound::<T>(), received)
+    requires n <= ALLOC_COUNT_MAX || alloc_ok(n * elem_bound::<T>(), received)
     ensures r@.len() == n, forall|i: int| 0 <= i < n ==> r@[i] == x
 { vec![x; n] }
 
 #[verifier::external_body]
 pub fn verif_hashmap_with_capacity(n: usize, Ghost(received): Ghost<int>) -> (r: HashMap<String, String>)
-    requires alloc_ok(n * 64, received)          // (String, String) bucket = 48 bytes + control byte, load factor 7/8
+    requires n <= ALLOC_COUNT_MAX || alloc_ok(n * 64, received)          // (String, String) bucket = 48 bytes + control byte, load factor 7/8
     ensures r@ == Map::<String, String>::empty()
 { HashMap::with_capacity(n) }
